@@ -653,7 +653,10 @@ static RETCODE adfFileSeekExt_ ( struct AdfFile * const file,
 RETCODE adfFileSeek ( struct AdfFile * const file,
                       const uint32_t         pos )
 {
-    if ( file->pos == pos  && file->curDataPtr != 0 )
+    /* nothing to do if the buffered block is the one holding pos (after a
+       transfer that ended on a block boundary it is still the previous one) */
+    if ( file->pos == pos  && file->curDataPtr != 0 &&
+         file->posInDataBlk != file->volume->datablockSize )
         return RC_OK;
 
     /* in write mode, first must write current data block before doing seek(!)
